@@ -19,6 +19,78 @@ KIND_CLASS = {"pack": "GeckoPack", "cfg": "GeckoConfigStruct", "log": "GeckoLogS
 FILES_ALIASES = {"MrSt": "MrSteam"}
 
 
+def refresh_window(ctx, repo, T):
+    """R9: the periodic refresh of both clients asks for a byte range that covers every item of the
+    connected log table lying inside its published window [begin, end].  The request expression of each
+    refresh site is evaluated (vlib.absint) for every shipped log table; the STATU builder is intercepted
+    and its (start, length) compared with the items."""
+    import ast
+    from ..absint import BoundMethod, Interp, Native, Obj, Opaque, PyRaise, Undecided
+    ctx.rule("R9", "refresh window: for every shipped log table the (start, length) both clients request periodically covers every item inside the table's published [begin, end] window")
+    STATU = "GeckoStatusBlockProtocolHandler.request"
+    sites = []
+    for cname in ("GeckoAsyncSpa", "GeckoSpa"):
+        cls = repo.cls(cname)
+        for m in cls.methods.values():
+            attrs = {n.attr for n in ast.walk(m.node) if isinstance(n, ast.Attribute)}
+            if {"begin", "end"} <= attrs:
+                # outermost call whose arguments mention .begin / .end
+                best = None
+                for n in ast.walk(m.node):
+                    if isinstance(n, ast.Call) and {"begin", "end"} <= {x.attr for a in list(n.args) + [k.value for k in n.keywords] for x in ast.walk(a) if isinstance(x, ast.Attribute)}:
+                        if best is None or any(x is best for x in ast.walk(n)):
+                            pass
+                        inner = any(isinstance(x, ast.Call) and x is not n and {"begin", "end"} <= {y.attr for a in list(x.args) + [k.value for k in x.keywords] for y in ast.walk(a) if isinstance(y, ast.Attribute)} for x in ast.walk(n))
+                        if not inner:
+                            best = n
+                if best is not None:
+                    sites.append((m, best))
+    ctx.floor("R9", "refresh request sites", len(sites), 2)
+    windows = {}
+    for stem, m in T.modules.items():
+        if m.kind == "log":
+            windows.setdefault((m.props.get("begin"), m.props.get("end")), []).append(m)
+    n_chk = 0
+    for m, call in sites:
+        names = {ast.unparse(x.value) for x in ast.walk(call) if isinstance(x, ast.Attribute) and x.attr in ("begin", "end")}
+        for (b, e), mods in sorted(windows.items()):
+            got = []
+            interp = Interp(repo)
+
+            def hook(it, node, callee, args, kwargs):
+                if isinstance(callee, BoundMethod) and callee.fi.qual == STATU:
+                    got.append((args[1], args[2]))
+                    return Opaque("request")
+                return NotImplemented
+            interp.call_hook = hook
+            counter = Native(lambda a, k: 1, "counter")
+            logc = Obj(None, {"begin": b, "end": e})
+            me = Obj(m.cls, {"sendparms": ("1.1.1.1", 10022, b"IOS", b"SPA"), "get_and_increment_sequence_counter": counter,
+                             "_protocol": Obj(None, {"get_and_increment_sequence_counter": counter})})
+            for nm in names:
+                parts = nm.split(".")
+                if parts[0] == "self" and len(parts) == 2:
+                    me.attrs[parts[1]] = logc
+            try:
+                interp.eval(call, {"self": me, "__class__": m.cls, "__mod__": m.mod})
+            except (PyRaise, Undecided) as ex:
+                raise AnalysisError(f"{m.qual}: refresh request cannot be evaluated: {ex}")
+            if len(got) != 1 or not all(isinstance(v, int) for v in got[0]):
+                raise AnalysisError(f"{m.qual}: refresh request does not reach {STATU} exactly once with concrete arguments ({got})")
+            start, length = got[0]
+            for mod in mods:
+                for it in mod.items:
+                    ln = T.geometry(it)["length"]
+                    if it.pos >= b and it.pos + ln - 1 <= e:
+                        n_chk += 1
+                        if not (start <= it.pos and it.pos + ln <= start + length):
+                            ctx.ob("R9", f"{m.qual}::{mod.stem}::{it.tag}", False,
+                                   f"{m.qual}: for {mod.stem} (window {b}..{e}) the refresh asks for {length} bytes from {start}, i.e. {start}..{start + length - 1}: item {it.tag} at {it.pos}..{it.pos + ln - 1} lies inside the published window but is never refreshed",
+                                   f"{m.mod.rel}:{call.lineno}")
+            ctx.ob("R9", f"{m.qual}::window::{b}-{e}", True, "", sample={"rule": "R9", "site": m.qual, "window": [b, e], "request": [start, length], "tables": len(mods)})
+    ctx.floor("R9", "items inside refresh windows checked", n_chk, 5000)
+
+
 def check(ctx):
     repo = Repo()
     T = tables(repo)
@@ -154,6 +226,7 @@ def check(ctx):
     from .c04 import files_roundtrip_names  # late import: shares the template analysis
 
     files_roundtrip_names(ctx, repo, T, rule="R5")
+    refresh_window(ctx, repo, T)
     ctx.assume("the spa reports its platform key as the GeckoPack.name of the shipped pack module (MrSt alias excepted)")
     ctx.trusted.append("struct-free: geometry folded from accessor.py constructors by vlib.absint")
 
